@@ -382,15 +382,17 @@ def _sinks(run, P):
         if isinstance(s, ast.For) and dotted(s.iter) == "self.statements" \
                 and isinstance(s.target, ast.Name):
             v = s.target.id
-            for b in s.body:
+            from .util import core
+            sbody = core(s.body, lambda s_: r in {x.id for x in ast.walk(s_) if isinstance(x, ast.Name)})
+            for b in sbody:
                 if isinstance(b, ast.AugAssign) and isinstance(b.op, ast.Sub) \
                         and isinstance(b.target, ast.Name) and b.target.id == r \
-                        and f"{v}.depends_on" in ast.unparse(b.value) and len(s.body) == 1:
+                        and f"{v}.depends_on" in ast.unparse(b.value) and len(sbody) == 1:
                     sub_ok = True
                     sub_node = b
                 if isinstance(b, ast.Expr) and isinstance(b.value, ast.Call) \
                         and dotted(b.value.func) == f"{r}.difference_update" \
-                        and f"{v}.depends_on" in ast.unparse(b.value) and len(s.body) == 1:
+                        and f"{v}.depends_on" in ast.unparse(b.value) and len(sbody) == 1:
                     sub_ok = True
                     sub_node = b
     run.ob("C04.sinks", f, init_node, init_ok,
